@@ -164,4 +164,14 @@ theorem c11_undeclared_ignored (N : Num) (T : Ty) (ne : NodeEdge) (v : Val) :
   unfold decode
   rw [key T (fun f h => h) v.fields]
 
+/-- non-vacuity of `c11_never_panics`: a type with an array, a slice, a map and a flat struct, and a value of that type
+    (the points decoded into it are arbitrary: the theorem takes any) -/
+example :
+    let T : Ty := [⟨false, [97], .array 2 (.int 32)⟩, ⟨false, [98], .slice .str⟩, ⟨false, [99], .map .f64⟩,
+                   ⟨true, [100], .struct [([107], .bool), ([108], .uint 8)]⟩, ⟨false, [101], .ptrStruct [([107], .str)]⟩]
+    let v : Val := { id := [1], fields := [.array [.i 1, .i 2], .slice [], .map [([107], .f 0)], .struct [.b true, .u 3], .ptrStruct none] }
+    Typed T v.fields := by
+  intro T v
+  simp [Typed, FTyped, T, v]
+
 end Siot.Config
